@@ -1,0 +1,101 @@
+//go:build verif
+
+package trig
+
+import (
+	"fmt"
+	"io"
+
+	"github.com/dpb587/cursorio-go/cursorio"
+)
+
+// VerifTokenOffsets is what VerifProduceOffsets observes besides the token's values.
+type VerifTokenOffsets struct {
+	// Range is the token's Offsets field (nil without offset capture).
+	Range *cursorio.TextOffsetRange
+	// Doc is the text writer's offset after the producer returned (nil without offset capture).
+	Doc *cursorio.TextOffset
+	// BufferByteOffset is the rune buffer's byte offset after the producer returned.
+	BufferByteOffset int64
+	// Rest holds the runes left in the decoder's buffer and reader, with their byte sizes.
+	Rest cursorio.DecodedRuneList
+}
+
+// VerifProduceOffsets is VerifProduce on a decoder configured with opts (offset capture, initial
+// offset): it reads the first rune from rd, runs the named token producer on it and also reports
+// the text offset bookkeeping. On a producer error the offsets describe the state at the error.
+func VerifProduceOffsets(kind string, rd io.Reader, opts ...DecoderOption) (values []string, o VerifTokenOffsets, err error) {
+	r, err := NewDecoder(rd, opts...)
+	if err != nil {
+		return nil, o, err
+	}
+
+	finish := func() {
+		o.Doc = r.getTextOffset()
+		o.BufferByteOffset = int64(r.buf.GetByteOffset())
+	}
+
+	r0, err := r.buf.NextRune()
+	if err != nil {
+		finish()
+
+		return nil, o, err
+	}
+
+	switch kind {
+	case "iriref":
+		t, perr := r.produceIRIREF(r0)
+		if err = perr; err == nil {
+			values, o.Range = []string{t.Decoded}, t.Offsets
+		}
+	case "string":
+		t, perr := r.produceString(r0)
+		if err = perr; err == nil {
+			values, o.Range = []string{t.Decoded}, t.Offsets
+		}
+	case "pname_ns":
+		t, perr := r.producePNAME_NS(r0)
+		if err = perr; err == nil {
+			values, o.Range = []string{t.DecodedString}, t.Offsets
+		}
+	case "pname":
+		t, perr := r.producePrefixedName(r0)
+		if err = perr; err == nil {
+			values, o.Range = []string{t.NamespaceDecoded, t.LocalDecoded}, t.Offsets
+		}
+	case "bnode":
+		t, perr := r.produceBlankNode(r0)
+		if err = perr; err == nil {
+			values, o.Range = []string{t.Decoded}, t.Offsets
+		}
+	case "langtag":
+		t, perr := r.produceLANGTAG(r0)
+		if err = perr; err == nil {
+			values, o.Range = []string{t.Decoded}, t.Offsets
+		}
+	case "numeric":
+		t, perr := r.produceNumericLiteral(r0)
+		if err = perr; err == nil {
+			values, o.Range = []string{t.GrammarRule.String(), t.Decoded}, t.Offsets
+		}
+	default:
+		return nil, o, fmt.Errorf("unknown token kind %q", kind)
+	}
+
+	finish()
+
+	if err != nil {
+		return nil, o, err
+	}
+
+	for {
+		rn, rerr := r.buf.NextRune()
+		if rerr != nil {
+			break
+		}
+
+		o.Rest = append(o.Rest, rn)
+	}
+
+	return values, o, nil
+}
